@@ -12,7 +12,10 @@ S: the scale family - production-size curves (2^8 .. 10^5 points, sizes straddli
    10^5) rebuilt from small recipes, replayed under loop budgets, judged by Trace_EvenScale with SPARSE tables (gap classes
    and counts of the marker pairs, exact height ranks of the mentioned indices only).  Its `runs` family lays out 129 ..
    several thousand knees / retained points with dense runs (64 .. 1024+ consecutive markers inside an x-span below 2*tx)
-   each followed at once by a gap wider than 2*tx and taller than ty, run ends on and off the multiples of 64 .. 1024."""
+   each followed at once by a gap wider than 2*tx and taller than ty, run ends on and off the multiples of 64 .. 1024.
+N: the narrow-dtype family - small curves STORED in float32 / float16 with rounded-decimal abscissae / ordinates and markers on
+   decimal multiples of 2*tx (heights on decimal multiples of ty), both functions, both `extremes`; oracle = the exact rational
+   rule on the stored values with the exact values of the Python floats tx, ty; judged by Trace_Filters like T."""
 import json
 import math
 import random
@@ -183,6 +186,191 @@ def _report(ctx, seen, key, clause, case, detail, limit=2):
     seen[key] = seen.get(key, 0) + 1
     if seen[key] <= limit:
         ctx.violation(clause, case, detail)
+
+
+# --------------------------------------------------------------------------- N (narrow float dtypes AND near-tie widths / heights)
+# Curves STORED in float32 / float16 whose abscissae / ordinates are rounded decimals (x = off + i*0.025, y = k*0.05, ...), with
+# markers on abscissae that are decimal multiples of 2*tx: the normalised width of such a gap is within one unit in the last
+# place OF THE NARROW TYPE of a multiple of 2*tx (float32(0.1) = 0.1000000015 > 0.1, float32(0.3)/0.1 = 3.00000012 -> 4 points),
+# far outside binary64 rounding noise.  The oracle is the exact rational rule on the ACTUAL narrow values (converted exactly),
+# tx and ty being the exact values of the Python floats passed.  A case is a small recipe; judged by Trace_Filters like T.
+N_DTYPES = {"float32": np.float32, "float16": np.float16}
+N_SX = [0.025, 0.025, 0.05, 0.01, 0.02, 0.1, 0.0125]
+N_TX = [0.05, 0.05, 0.05, 0.025, 0.1, 0.15, 0.2, 0.01]
+N_TY = [0.05, 0.05, 0.1, 0.01, 0.2, 0.25, 0.15]
+N_U = [0.05, 0.05, 0.1, 0.01, 0.025, 0.2]
+N_SHAPES = ["knee", "knee", "levels", "levels", "bumpy", "rise"]
+
+
+def _n_build(rec):
+    """recipe -> (P in the narrow dtype (n, 2), call arguments); None when the rounded abscissae are not strictly increasing
+    or an axis is constant (outside the property's domain)."""
+    rng = random.Random(rec["seed"])
+    dt = N_DTYPES[rec["dtype"]]
+    n, sx, off, u, K = rec["n"], rec["sx"], rec["xoff"], rec["u"], rec["K"]
+    x = np.array([round(off + i * sx, 6) for i in range(n)])
+    q = max(1, int(round(2.0 * rec["tx"] / sx)))
+    aligned = [k for k in range(1, n - 1) if k % q == 0] if abs(q * sx - 2.0 * rec["tx"]) < 1e-9 else []
+    aligned = aligned or list(range(1, n - 1))
+    inner = sorted({rng.choice(aligned) if rng.random() < 0.7 else rng.randrange(1, n - 1)
+                    for _ in range(rng.randint(1, min(6, n - 2)))})
+    shape = rec["shape"]
+    if shape == "knee":                      # linear drop to the knee (a marker), almost flat tail
+        k = rng.choice(inner)
+        xr = (x - x[0]) / (x[-1] - x[0])
+        xk = xr[k]
+        top, low = K * u, rng.choice([0.02, 0.05, 0.1, 0.3]) * K * u
+        y = np.where(xr <= xk, top - (top - low) * xr / xk, low * (1.0 - xr) / (1.0 - xk))
+    else:
+        if shape == "rise":
+            lv = sorted(rng.randint(0, K) for _ in range(n - 2))
+            lv = [0] + lv + [K]
+        else:
+            lv = sorted((rng.randint(0, K) for _ in range(n - 2)), reverse=True)
+            lv = [K] + lv + [0]
+        if shape == "bumpy":
+            lv = [min(K, max(0, v + (rng.randint(-3, 3) if 0 < i < n - 1 and rng.random() < 0.3 else 0))) for i, v in enumerate(lv)]
+        y = np.array([round(v * u + rec["yoff"], 6) for v in lv])
+    P = np.ascontiguousarray(np.column_stack([x, y]).astype(dt))
+    X64 = P[:, 0].astype(float)
+    if not (np.all(np.isfinite(P.astype(float))) and np.all(np.diff(X64) > 0) and np.ptp(P[:, 1].astype(float)) > 0):
+        return None
+    if rec["fn"] == "reduced":
+        red = [0] + inner + [n - 1]
+        kpos = sorted(rng.sample(range(len(red)), rng.randint(0, len(red))))
+        return P, {"reduced": red, "kpos": kpos}
+    knees = set(inner)
+    if rng.random() < 0.1:
+        knees.add(rng.choice([0, n - 1]))
+    return P, {"knees": sorted(knees)}
+
+
+def _n_tables(P, markers, tx, ty):
+    """_exact_tables for a curve stored in a narrow float type.  The unchanged code subtracts two stored values IN THAT TYPE
+    (then continues in binary64): where that subtraction (and the range's) is exact the binary64 noise rule of T applies,
+    elsewhere the noise is the narrow type's (2 eps relative).  Also returns whether evaluating the documented rule in the
+    narrow type itself would change a gap's class or count (the combination this family is for)."""
+    dt = P.dtype.type
+    eps = float(np.finfo(dt).eps)
+    tiny = float(np.finfo(dt).tiny)
+    X = [Fraction(float(v)) for v in P[:, 0]]
+    Y = [Fraction(float(v)) for v in P[:, 1]]
+    dx, dy = max(X) - min(X), max(Y) - min(Y)
+    mx, mn = P.max(axis=0), P.min(axis=0)
+    ndx, ndy = mx[0] - mn[0], mx[1] - mn[1]                   # the ranges as the narrow type subtracts them
+    ex_dx, ex_dy = Fraction(float(ndx)) == dx, Fraction(float(ndy)) == dy
+    ftx, fty = Fraction(float(tx)), Fraction(float(ty))
+    gaps, amb, sens = [], False, False
+    for a, b in zip(markers[:-1], markers[1:]):
+        W = abs(X[b] - X[a]) / dx
+        Hh = abs(Y[b] - Y[a]) / dy
+        dw, dh = P[b, 0] - P[a, 0], P[b, 1] - P[a, 1]
+        ew = ex_dx and Fraction(float(dw)) == X[b] - X[a]
+        eh = ex_dy and Fraction(float(dh)) == Y[b] - Y[a]
+        rw = 0.0 if ew else 2.0 * eps
+        rh = 0.0 if eh else 2.0 * eps
+        if (not ew and 0 < abs(float(dw)) < tiny / eps) or (not eh and 0 < abs(float(dh)) < tiny / eps):
+            amb = True                                       # subnormal difference: no relative bound
+        if abs(float(W) - 2.0 * tx) <= 1e-12 + rw * 2.0 * tx or abs(float(Hh) - ty) <= 1e-12 + rh * ty:
+            amb = True
+        wide, high = W > 2 * ftx, Hh > fty
+        m = 0
+        if wide:
+            r = W / (2 * ftx)
+            m = int(math.ceil(r))
+            if abs(float(r) - round(float(r))) <= 1e-9 + rw * float(r):
+                amb = True
+        # the rule evaluated in the narrow type
+        with np.errstate(all="ignore"):
+            nw, nh = dt(abs(float(dw))) / ndx, dt(abs(float(dh))) / ndy
+            n_wide, n_high = bool(nw > dt(2.0 * tx)), bool(nh > dt(ty))
+            n_m = int(math.ceil(float(nw / dt(2.0 * tx)))) if n_wide else 0
+        if (n_wide and n_high) != (wide and high) or (wide and high and n_m != m):
+            sens = True
+        gaps.append([int(a), int(b), bool(wide), bool(high), int(m)])
+    return gaps, amb, sens
+
+
+def _n_record(rec):
+    """recipe -> case for Trace_Filters (None: outside the property's domain)"""
+    built = _n_build(rec)
+    if built is None:
+        return None
+    P, args = built
+    n, kind, tx, ty, ext = len(P), rec["fn"], rec["tx"], rec["ty"], bool(rec["extremes"])
+    if kind == "reduced":
+        markers = list(args["reduced"])
+        kmap = [markers[p] for p in args["kpos"]]
+    else:
+        markers = [0] + list(args["knees"]) + [n - 1]
+        kmap = list(args["knees"])
+    gaps, amb, sens = _n_tables(P, markers, tx, ty)
+    c = {"id": rec["id"], "kind": "c14", "n": n, "gaps": gaps, "kmap": kmap, "extremes": ext,
+         "hr": numeric.ranks(P[:, 1].astype(float), rel=0.0, ab=0.0), "raised": "", "out": [], "ambiguous": amb,
+         "sensitive": sens}
+    outcome, val, _ = monitor.call(_call, (kind, P, args, tx, ty, ext), budget=monitor.quad(n, 8), wall=60)
+    if outcome == "returned":
+        c["out"] = val
+    else:
+        c["raised"] = "%s: %s" % (_fn(kind), outcome.split(":", 1)[-1])
+    return c
+
+
+def _n_recipes(ctx):
+    rng = ctx.rng
+    recs = []
+    for _ in range(700 if ctx.quick else 7000):
+        sx = rng.choice(N_SX)
+        rx = rng.choice([1.0, 1.0, 1.0, 2.0, 0.5, 4.0])
+        n = int(round(rx / sx)) + 1
+        if n < 5 or n > 161:
+            continue
+        u = rng.choice(N_U)
+        ry = rng.choice([1.0, 1.0, 1.0, 2.0, 0.5])
+        base = {"fam": "narrow", "dtype": rng.choice(["float32", "float32", "float16"]), "n": n, "sx": sx,
+                "xoff": rng.choice([0.0, 0.0, 0.0, 1.0, 2.0, -1.0, 0.5]), "shape": rng.choice(N_SHAPES), "u": u,
+                "K": max(2, int(round(ry / u))), "yoff": rng.choice([0.0, 0.0, 0.0, 1.0, 0.5]),
+                "fn": rng.choice(["reduced", "markers"]), "tx": rng.choice(N_TX), "ty": rng.choice(N_TY),
+                "seed": rng.randrange(1 << 30)}
+        for ext in (False, True):
+            recs.append(dict(base, id="n%d" % len(recs), extremes=ext))
+    return recs
+
+
+def _narrow_family(ctx, seen):
+    recs = _n_recipes(ctx)
+    res = par.pmap(_n_record, recs)
+    meta = {r["id"]: r for r in recs}
+    cases = [c for c in res if c is not None]
+    judged = [{k: v for k, v in c.items() if k != "sensitive"} for c in cases if not c["ambiguous"]]
+    rej = ctx.trace("Trace_Filters", judged, chunk=1500)
+    by = {}
+    for c in cases:
+        r = meta[c["id"]]
+        cand = any(g[2] and g[3] for g in c["gaps"])
+        ctx.count(("N", r), (not c["ambiguous"]) and cand)
+        k = by.setdefault("%s/%s" % (r["dtype"], _fn(r["fn"])), {"calls": 0, "ambiguous_not_judged": 0, "with_candidates": 0,
+                                                                 "narrow_arithmetic_would_differ": 0})
+        k["calls"] += 1
+        k["ambiguous_not_judged"] += int(c["ambiguous"])
+        k["with_candidates"] += int(cand and not c["ambiguous"])
+        k["narrow_arithmetic_would_differ"] += int(c["sensitive"] and not c["ambiguous"])
+    for cid, vs in rej.items():
+        r = meta[cid]
+        for v in vs:
+            _report(ctx, seen, "N/%s/%s/%s/%s" % (v[0], r["fn"], r["extremes"], r["dtype"]), v[0], {"kind": "N", "recipe": r},
+                    {"f": _fn(r["fn"]), "n": r["n"], "dtype": r["dtype"], "tx": r["tx"], "ty": r["ty"], "extremes": r["extremes"],
+                     "verdict": v})
+    ctx.extra["narrow_dtype"] = {"recipes": len(recs), "outside_domain_dropped": len(recs) - len(cases), "by_dtype_and_function": by}
+    sens = sum(k["narrow_arithmetic_would_differ"] for k in by.values())
+    ctx.note("narrow-dtype family: %d judged calls on float32 / float16 curves with decimal abscissae / ordinates and markers on "
+             "decimal multiples of 2*tx (Trace_Filters, exact rationals of the stored values); in %d of them evaluating the rule "
+             "in the curve's own type would change a gap's class or count" % (len(judged), sens))
+    if not sens:
+        ctx.note("narrow-dtype family: no judged call in this run is sensitive to the arithmetic's type")
+    pick = next((c for c in cases if c["sensitive"] and not c["ambiguous"] and c["n"] <= 41), None)
+    if pick is not None:
+        ctx.sample({"binding": "N", "recipe": meta[pick["id"]], "case": pick})
 
 
 # --------------------------------------------------------------------------- S (scale)
@@ -723,7 +911,17 @@ def run(ctx):
                  "every run so that it ends on (every function x block size 64 / 128 / 256 / 1024 at least once per run), next to "
                  "and off the multiples of those block sizes; tx and ty are derived from the layout, every such gap must receive its "
                  "ceil(w/(2tx)) even points (same clauses, same judge).")
+    ctx.rule += ("  N (narrow dtype AND near-tie): curves of 5 .. 161 points stored as float32 / float16 with abscissae off + i*s "
+                 "(s in {0.0125, 0.01, 0.02, 0.025, 0.05, 0.1}, range 0.5 .. 4, offsets 0, 0.5, +-1, 2) and ordinates on decimal levels "
+                 "k*u (knee / non-increasing levels / bumpy / rising shapes, offsets 0, 0.5, 1), retained points / knees mostly on "
+                 "abscissae that are decimal multiples of 2*tx, tx in {0.01 .. 0.2} x ty in {0.01 .. 0.25} x both functions x extremes "
+                 "in {False, True}: widths and heights within one unit in the last place of the NARROW type of a multiple of 2*tx / of "
+                 "ty, judged like T (Trace_Filters) against the exact rational rule on the stored values.")
     ctx.assumptions += [
+        "N: classes and counts over exact rationals of the stored float32 / float16 values and of the Python floats tx, ty; the "
+        "unchanged code subtracts two stored values in the curve's type before continuing in binary64, so a gap whose "
+        "subtraction (or the range's) is inexact in that type is flagged ambiguous within 2 eps(type) relative of a threshold / "
+        "an integer, every other gap by T's binary64 rule (1e-12 / 1e-9); calls run under monitor.call, budget monitor.quad(n, 8)",
         "G domain: dyadic grids - |dx|/range, 2*tx and their quotient are exact in binary64; |dy|/range is one correctly "
         "rounded division of small integers compared with a dyadic ty, which decides like the rational",
         "removed = rdp.compute_removed_points(points, reduced); knees of add_points_even are positions in the reduced curve",
@@ -787,6 +985,8 @@ def run(ctx):
     m = meta[big["id"]]
     ctx.sample({"binding": "T", "call": {"fn": _fn(m[1]), "points": m[2], "args": m[3], "tx": m[4], "ty": m[5],
                                          "extremes": m[6]}, "case": big})
+    # ---- N
+    _narrow_family(ctx, seen)
     # ---- S
     _scale_family(ctx, seen)
     ctx.extra["violating_cases_by_clause"] = dict(seen)
@@ -798,6 +998,18 @@ def replay(ctx, obj):
         r = _check_combo(case["case"], case["combo"])
         if r is not None:
             ctx.violation(r[0], case, r[1])
+    elif case["kind"] == "N":
+        r = dict(case["recipe"], id="replay")
+        c = _n_record(r)
+        if c is None or c["ambiguous"]:
+            print("replay: call is outside the domain or within rounding noise of a threshold (not judged)")
+            return
+        c.pop("sensitive")
+        rej = ctx.trace("Trace_Filters", [c])
+        for cid, vs in rej.items():
+            for v in vs:
+                ctx.violation(v[0], case, {"f": _fn(r["fn"]), "n": r["n"], "dtype": r["dtype"], "tx": r["tx"], "ty": r["ty"],
+                                           "extremes": r["extremes"], "verdict": v})
     elif case["kind"] == "S":
         r = dict(case["recipe"], id="replay")
         c, inf = _s_record(r)
